@@ -161,6 +161,20 @@ type ExtSym struct {
 	Name   string
 	Size   uint32
 	Script []ExtBehav
+	// Static, when non-nil, makes this a static-load symbol: no code runs, the content is the
+	// stored entry for the language in force (key "" = default entry).
+	Static map[string]string
+}
+
+// StaticContent resolves a static symbol for a language: translation, else default entry.
+func (e *ExtSym) StaticContent(lang string) (string, bool) {
+	if lang != "" {
+		if v, ok := e.Static[lang]; ok {
+			return v, true
+		}
+	}
+	v, ok := e.Static[""]
+	return v, ok
 }
 
 type App struct {
@@ -262,7 +276,7 @@ func (a *App) Text() map[string]interface{} {
 	}
 	ext := map[string]interface{}{}
 	for _, e := range a.Ext {
-		ext[e.Name] = map[string]interface{}{"size": e.Size, "script": e.Script}
+		ext[e.Name] = map[string]interface{}{"size": e.Size, "script": e.Script, "static": e.Static}
 	}
 	return map[string]interface{}{"root": a.Root, "nodes": nodes, "ext": ext, "labels": a.Labels}
 }
